@@ -53,8 +53,9 @@ SPECIAL_CANDIDATES = [(0, 0, 0), (Fraction(1, 2), 0, 0), (0, Fraction(1, 2), 0),
                       (Fraction(1, 8), Fraction(1, 8), Fraction(1, 8)), (Fraction(3, 16), Fraction(3, 16), 0), (Fraction(3, 16), Fraction(1, 2), Fraction(5, 32))]
 
 
-def check_setting(sgm, number, choice, rng, n_general=2):
-    """Run-time contract for one setting: unit_cell_atoms vs the exact rational orbit."""
+def check_setting(sgm, number, choice, rng, n_general=2, noise=False):
+    """Run-time contract for one setting: unit_cell_atoms vs the exact rational orbit.  noise: the coordinates handed to the crystal carry
+    rounding-level noise (a few 1e-16, as recomputed coordinates do), so images of a special-position site fall on both sides of a cell face."""
     from chmpy.crystal import Crystal, UnitCell, SpaceGroup, AsymmetricUnit
     from chmpy import Element
     sg = SpaceGroup(number, choice=choice)
@@ -97,6 +98,8 @@ def check_setting(sgm, number, choice, rng, n_general=2):
     els = [Element[["C", "N", "O", "S", "Cl", "Fe"][i % 6]] for i in range(len(sites))]
     labels = [f"{els[i].symbol}{i + 1}" for i in range(len(sites))]
     pos = np.array([[float(v) for v in s[0]] for s in sites])
+    if noise:
+        pos = pos + rng.choice([-1.0, 1.0], size=pos.shape) * rng.uniform(5e-17, 4e-16, size=pos.shape)
     occ = np.array([s[1] for s in sites])
     cell = UnitCell.from_lengths_and_angles([7.1, 8.3, 9.7], [1.3, 1.45, 1.6])       # metric irrelevant: merging is in fractional space
     c = Crystal(cell, sg, AsymmetricUnit(els, pos, labels=labels, occupation=occ))
@@ -233,6 +236,22 @@ def build(ctx):
     wrap_instance(ctx, crmod, wrap_replay)
 
     merge_instance(ctx, crmod)
+
+    # F: coincidence of images is decided modulo the lattice (a periodic neighbour search over the wrapped fractional coordinates)
+    import chmpy.crystal.space_group as sgm_
+
+    def periodic_fb():
+        rng_ = np.random.default_rng(77)
+        for number, choice in ((2, ""), (12, "b1"), (148, "H"), (148, "R"), (166, "H"), (194, ""), (225, "")):
+            for _ in range(3):
+                f, n = check_setting(sgm_, number, choice, rng_, noise=True)
+                if f:
+                    return f
+        return None
+    kd_calls = [n for n in ast.walk(f_uca.node) if isinstance(n, ast.Call) and ast.unparse(n.func).split(".")[-1] in ("KDTree", "cKDTree")]
+    ctx.pattern("crystal.Crystal.unit_cell_atoms/merge/periodic_neighbour_search", bool(kd_calls) and all(any(k.arg == "boxsize" for k in c_.keywords) for c_ in kd_calls),
+                clause="the neighbour search that finds coincident images is periodic (boxsize over coordinates wrapped into [0,1)): images on either side of a cell face are one site",
+                fallback=periodic_fb, fn=f_uca)
     bounded(ctx)
 
 
@@ -440,14 +459,17 @@ def bounded(ctx):
         todo = settings
     fails, evals, nsites = [], 0, 0
     for number, choice in todo:
-        try:
-            f, n = check_setting(sgm, number, choice, rng)
-        except Exception as e:  # noqa
-            f, n = {"input": {"setting": f"{number}:{choice}"}, "observed": {"exception": repr(e)[:300]}, "clause": "unit_cell_atoms runs", "key": "exception"}, 1
-        evals += 1
-        nsites += n
-        if f and len(fails) < 3:
-            fails.append(f)
+        for noise in (False, True):
+            try:
+                f, n = check_setting(sgm, number, choice, rng, noise=noise)
+            except Exception as e:  # noqa
+                f, n = {"input": {"setting": f"{number}:{choice}"}, "observed": {"exception": repr(e)[:300]}, "clause": "unit_cell_atoms runs", "key": "exception"}, 1
+            evals += 1
+            nsites += n
+            if f and noise:
+                f = dict(f, input=dict(f.get("input", {}), coordinates="given with rounding-level noise (a few 1e-16)"))
+            if f and len(fails) < 3:
+                fails.append(f)
     ctx.add_bounded("crystal.Crystal.unit_cell_atoms/bounded/exact_orbit", f"{len(todo)} settings ({'seeded sample incl. trigonal/hexagonal/cubic' if ctx.tier == 'quick' else 'all 530'}) x general positions "
-                    "(inside and outside the cell) + exact special positions with fractional occupancies, compared with an exact rational orbit", evals, nsites, fails,
+                    "(inside and outside the cell) + exact special positions with fractional occupancies, each also with rounding-level noise (a few 1e-16) on the given coordinates, compared with an exact rational orbit", evals, nsites, fails,
                     rule="sites checked (distinct orbits)")
